@@ -49,7 +49,8 @@ func FixPEChecksum(f *os.File) error {
 }
 
 type peChecksum struct {
-	cksumPos  int
+	cksumPos  int // absolute offset of the checksum field, -1 if none
+	pos       int // number of bytes written so far
 	sum, size uint32
 	odd       bool
 }
@@ -76,6 +77,7 @@ func (peChecksum) BlockSize() int {
 
 func (h *peChecksum) Reset() {
 	h.cksumPos = -1
+	h.pos = 0
 	h.sum = 0
 	h.size = 0
 }
@@ -91,13 +93,14 @@ func (h *peChecksum) Write(d []byte) (int, error) {
 		copy(d2, d)
 		d = d2
 	}
+	// offset of the checksum field relative to this write. It is negative
+	// when the field began in an earlier write, so that a field straddling
+	// two writes is still skipped in full.
 	ckpos := -1
-	if h.cksumPos > n {
-		h.cksumPos -= n
-	} else if h.cksumPos >= 0 {
-		ckpos = h.cksumPos
-		h.cksumPos = -1
+	if h.cksumPos >= 0 {
+		ckpos = h.cksumPos - h.pos
 	}
+	h.pos += n
 	sum := h.sum
 	for i := 0; i < n; i += 2 {
 		val := uint32(d[i+1])<<8 | uint32(d[i])
